@@ -28,7 +28,7 @@ func compactJSON(b []byte) string {
 var codecStrings = []string{"", "a", "x.y", "svc.model.42", "with space", "quo\"te", "back\\slash", "tab\there", "nl\nx", "ünï", "日本", "<html>&", "\x01ctl", "a?q=1", "emoji😀", "$id", "*", "a..b"}
 
 // JSON value texts: canonical (compact) ones
-var codecValues = []string{`null`, `true`, `false`, `0`, `-1.5e3`, `12`, `"s"`, `""`, `"a\"b"`, `[]`, `[1,2]`, `{}`, `{"a":1}`, `{"a":{"b":[1,null]}}`, `[{"x":"y"}]`, `"ünï"`,
+var codecValues = []string{`null`, `true`, `false`, `0`, `-1.5e3`, `12`, `"s"`, `"S"`, `"bob"`, `"Bob"`, `{"data":"Bob"}`, `{"rid":"x.~y"}`, `{"rid":"~","soft":true}`, `""`, `"a\"b"`, `[]`, `[1,2]`, `{}`, `{"a":1}`, `{"a":{"b":[1,null]}}`, `[{"x":"y"}]`, `"ünï"`,
 	`{"rid":"x.y"}`, `{"rid":"x.y","soft":true}`, `{"rid":"x.y","soft":false}`, `{"action":"delete"}`, `{"data":1}`, `{"data":{"a":1}}`, `{"data":[1]}`, `{"data":null}`, `{"data":"s"}`,
 	`{"rid":""}`, `{"rid":"a..b"}`, `{"rid":"x","action":"delete"}`, `{"rid":"x","data":1}`, `{"action":"remove"}`, `{"action":"delete","data":1}`, `{"foo":"bar"}`, `{"rid":5}`,
 	`{"rid":"x.y","extra":1}`, `{"action":"delete","extra":[1]}`, `{"data":{"a":1},"z":2}`, `{"soft":true}`, `{"rid":"x.y","soft":"yes"}`, `{"rid":"x?q=1"}`, `{"rid":"x.*"}`, `{"data":true,"soft":true}`,
